@@ -461,9 +461,11 @@ func runC02(c *Ctx) {
 			case 1:
 				c.sphereFamily(b+2, a+1) // columns large
 			case 2:
-				c.sphereFamily(b+2+c.Rng.Intn(3), b) // rows = columns + 2..4
+				bb := 3 + c.Rng.Intn(30)
+				c.sphereFamily(bb+2+c.Rng.Intn(3), bb) // rows = columns + 2..4
 			default:
-				c.sphereFamily(b, b+1+c.Rng.Intn(3))
+				bb := 3 + c.Rng.Intn(30)
+				c.sphereFamily(bb, bb+1+c.Rng.Intn(3))
 			}
 			c.sidesFamily(c.Rng.Intn(513))
 		}
